@@ -184,6 +184,13 @@ def r2_distinct_packages(repo):
     ok = any(all(g.dominates(g.node(r), g.node(d)) for d in draws) for r in resets)
     obs.append(Ob("C02-R2", "_run:pool-reset-once-per-batch-before-drawing", _w(f), ok,
                   "a reset_word_pool() must dominate all draws of a batch (fresh pool per batch)"))
+    # every batch gets its own fresh directory
+    mk = [c for c in calls_in(fn) if src(c.func) == "tempfile.mkdtemp"]
+    wl = [a for a in ancestors(mk[0]) if isinstance(a, ast.While)] if mk else []
+    okd = len(mk) == 1 and bool(wl) and not flat_guards(mk[0], stop=wl[0])
+    obs.append(Ob("C02-R2", "_run:fresh-directory-per-batch", _w(f), okd,
+                  "tempfile.mkdtemp() must be called inside the batch loop: with a worker pool the next batch is generated while "
+                  "the previous one is still being compiled, so a shared directory mixes two batches in one compiler run"))
     # RandomUtils.word removes what it returns
     wf = repo.method("src.utils.RandomUtils", "word", inherited=False)
     rm = [c for c in calls_in(wf.node) if call_name(c) == "remove" and src(c.func.value) == "self.WORDS"]
@@ -206,7 +213,7 @@ def r2_distinct_packages(repo):
 def rules():
     return [
         RuleSpec("C02-R1", "package printed = directory written (per program, per variant)", 15, r1_package_is_path),
-        RuleSpec("C02-R2", "distinct package names within a batch (word-pool typestate)", 6, r2_distinct_packages),
+        RuleSpec("C02-R2", "distinct package names within a batch (word-pool typestate)", 7, r2_distinct_packages),
     ]
 
 
@@ -263,6 +270,14 @@ def _v_cleanup_on_error(tree):
     tr.handlers[0].body.insert(0, V.parse_stmts("shutil.rmtree(dirname, ignore_errors=True)")[0])
 
 
+def _v_one_dir(tree):
+    f = V.find_def(tree, "_run")
+    st = V.one([n for n in ast.walk(f) if isinstance(n, ast.Assign) and "mkdtemp" in ast.unparse(n.value)])
+    V.remove_stmt(tree, st)
+    wl = V.one([n for n in f.body if isinstance(n, ast.While)])
+    V.insert_before(tree, wl, [st])
+
+
 def _t_rename(tree):
     f = V.find_def(tree, "_run")
     V.rename_local(f, "batch_packages", "names")
@@ -279,6 +294,7 @@ def variants():
         V.Variant("pool reset before every program", h, _v_reset_in_loop, {"C02-R2"}),
         V.Variant("word() keeps the word in the pool", "src/utils.py", _v_word_keeps, {"C02-R2"}),
         V.Variant("tool error removes the whole batch directory", h, _v_cleanup_on_error, {"C02-R1"}),
+        V.Variant("one temporary directory for all batches", h, _v_one_dir, {"C02-R2"}),
         V.Variant("twin: rename batch_packages", h, _t_rename, None, twin=True),
         V.Variant("twin: whole tree reformatted by ast.unparse", None, None, None, twin=True),
     ]
